@@ -636,6 +636,43 @@ class Check:
         (out / f"{self.prop}.json").write_text(json.dumps(ev, indent=1, default=str))
 
 
+def decision_list(stmts):
+    """[(test node | None, returned expression node)] of a body that decides by if / elif / else / early return / conditional
+    expression, in evaluation order; the last entry has test None (the fall-through). Returns None when the body does anything else
+    between the tests (other statements may precede the first test and are skipped only if they are plain assignments)."""
+    out = []
+    stmts = list(strip_docstring(stmts))
+    i = 0
+    while i < len(stmts):
+        st = stmts[i]
+        if isinstance(st, ast.If):
+            if len(st.body) == 1 and isinstance(st.body[0], ast.Return):
+                out.append((st.test, st.body[0].value))
+                if st.orelse:
+                    rest = decision_list(st.orelse)
+                    if rest is None or i != len(stmts) - 1:
+                        return None
+                    return out + rest
+                i += 1
+                continue
+            return None
+        if isinstance(st, ast.Return):
+            v = st.value
+            while isinstance(v, ast.IfExp):
+                out.append((v.test, v.body))
+                v = v.orelse
+            out.append((None, v))
+            return out if i == len(stmts) - 1 else None
+        if isinstance(st, (ast.Assign, ast.AnnAssign)) and not out:
+            i += 1
+            continue
+        if isinstance(st, ast.Raise):
+            out.append((None, st))
+            return out if i == len(stmts) - 1 else None
+        return None
+    return None
+
+
 def params(f) -> list[str]:
     """Positional parameter names (positional-only first)."""
     return [a.arg for a in f.args.posonlyargs + f.args.args]
